@@ -9,11 +9,12 @@ ID = "C15"
 COQ_DIR = "C15"
 RUN_MOD = "C15.Run"
 MODEL_TARGETS = ["C15/Run.vo"]
-PROOF_TARGETS = ["C15/Lemmas.vo"]
+PROOF_TARGETS = ["C15/Lemmas.vo", "C15/LemSession.vo"]
 PROPS = ["C15/Props.v"]
 ALLOWED_AXIOMS = []
 IMPL_TIMEOUT = 10.0
 COQ_SHARD = 20     # vm_compute/printing of the result string overflows the stack above ~30k characters
+                   # (a session or a sweep compile case prints 1-3k characters)
 
 
 class ExtractError(Exception):
@@ -686,6 +687,38 @@ def _gen_prep(rng, rows, nkept):
     return _gen_bad(rng, rows)
 
 
+def _vary_value(rng, rows, col, v):
+    if v is None:
+        return None
+    if isinstance(v, dict):
+        (k, items), = v.items()
+        new = _gen_items(rng, rows, col, k)
+        while len(new) == len(items) and rng.random() < 0.7:
+            new = _gen_items(rng, rows, col, k)
+        return {k: new}
+    for _ in range(5):
+        w = _pick_scalar(rng, rows, col if col in FIELDS else None)
+        if w is not None and type(w) is type(v):
+            return w
+    return v
+
+
+def _vary_arg(rng, rows, a):
+    """the same filter shape (fields, operators, kinds of values) with other values"""
+    if a is None or "s" in a or "tn" in a or "bad" in a or "ref" in a:
+        return a
+    if "t3" in a:
+        f, op, v = a["t3"]
+        if isinstance(op, str) and op.upper() in ("LIKE", "NOT LIKE"):
+            return dict(a, t3=[f, op, rng.choice(LIKE_POOL) if isinstance(v, str) else v])
+        return dict(a, t3=[f, op, _vary_value(rng, rows, f, v)])
+    if "t2" in a:
+        f, v = a["t2"]
+        return dict(a, t2=[f, _vary_value(rng, rows, f, v)])
+    return {"or": [_vary_arg(rng, rows, x) for x in a["or"]],
+            "kw": {k: _vary_value(rng, rows, k, v) for k, v in a["kw"].items()}}
+
+
 def _gen_session(rng):
     rows = _gen_rows(rng)
     while len(rows) < 2 and rng.random() < 0.8:
@@ -727,9 +760,19 @@ def _gen_session(rng):
             steps.append({"op": "text", "c": rng.randrange(len(kept)), "pt": rng.choice([0, 1]), "pre": rng.choice([0, 0, 1, 2])})
             continue
         # a request
-        if last_call is not None and rng.random() < 0.15:
-            st = dict(last_call)                 # the same request again, on another connection
-            st["conn"] = (st["conn"] + 1) % len(conns)
+        if last_call is not None and rng.random() < 0.3:
+            # an earlier request again: on another connection, and / or with other values of the same shapes
+            # (lists of another length), with or without its order / scalars overrides
+            st = dict(last_call)
+            q = rng.random()
+            if q < 0.6:
+                st["args"] = [_vary_arg(rng, rows, a) for a in st["args"]]
+                st["kw"] = {k: _vary_value(rng, rows, k, v) for k, v in st["kw"].items()}
+            if q > 0.4:
+                st["conn"] = (st["conn"] + 1) % len(conns)
+            if rng.random() < 0.3:
+                st.pop("kw_order", None)
+                st.pop("kw_scalars", None)
         else:
             mi = 0 if ncalls < 2 else rng.randrange(len(methods))
             md = methods[mi]
@@ -1200,6 +1243,10 @@ def _result_obs(r, mtd, scalars_eff, obs):
     def rid(x):
         return x if scalars_eff else x[0]
     obs["fields"] = None
+    ids = [rid(x) for x in r] if isinstance(r, list) else [] if r is None else [rid(r)]
+    if not all(isinstance(i, int) and not isinstance(i, bool) for i in ids):
+        obs["res"] = ["err", "NotTheFirstColumn"]          # records where scalars were requested, or the reverse
+        return
     if isinstance(r, list):
         obs["res"] = ["rows", [rid(x) for x in r]]
         obs["recs"] = None if scalars_eff else [list(x) for x in r]
@@ -2071,6 +2118,12 @@ TRUSTED_BASE = [
     "gen/C15_Consts.v: _SQL_CLAUSES, the operator groups of both if-chains, the literals '0'/'1'/'FALSE', the IS [NOT] NULL / "
     "[NOT] IN rewrites, separators and WHERE/AND/GROUP BY/ORDER BY are read from ak/mtd_sql.py (ast, fail-closed)",
     "iteration order of python sets is observed on the implementation and passed to the model",
+    "sessions: the model has no object state; a reference to a kept condition object is handed to the model as the filter "
+    "it was made from with the CURRENT contents of its list / set objects (read from the python objects just before the "
+    "request; theorem prepared_condition_tracks_its_lists says creation-time decisions do not depend on the contents); "
+    "the oracle computes the same from the case alone.  That the implementation keeps no other state is tested, not proved",
+    "the '%s' connection is a stand-in over sqlite3 whose class lives in a module named mysql.connector.*: one parameter "
+    "per %s, all parameters used, '?' rejected (no real MySQL server)",
 ]
 ASSUMPTIONS = [
     "operands are None, int (64-bit) or str, or list/tuple/set of those; a set with '='/'!=' and a container with an ordering "
@@ -2081,7 +2134,8 @@ ASSUMPTIONS = [
 ]
 MODELLED = ("ak/mtd_sql.py: SqlFilterCondition.make, SqlFieldValCondition, SqlOrCondition, SqlMethod._execute/list/all/one/"
             "one_or_none (record type creation and records_mmap not modelled); ak/mcaller_sql.py: only the row-count rules of "
-            "SqlMethodT.list/one/one_or_none")
+            "SqlMethodT.list/one/one_or_none; histories (Run.v `Session`): several requests / make_text_update_values calls on "
+            "shared SqlMethod and condition objects as a map of independent steps")
 TECHNIQUE = ("Coq proofs (structural induction over condition trees, fuel-indexed recursive-descent evaluator) on a hand-written "
              "Gallina model + per-run correspondence (sql text, bound values, returned rows vs real sqlite3) + constants "
              "regenerated from the source + independent three-valued-logic oracle using the engine's own atom truths")
@@ -2089,7 +2143,14 @@ LEVEL_TEXT = ("Full (about the model, unbounded condition trees / values / table
               "placeholders_match (token level), values_never_in_text + same_shape_same_text (for ALL arguments, also rejected "
               "ones), empty_in; the clause tables, operator groups, '0'/'1'/'FALSE', IS [NOT] NULL / [NOT] IN rewrites and "
               "separators are re-read from ak/mtd_sql.py on every run, so consts_ok / leaf_compiles are re-proved against the "
-              "current source.  Partial: the text-level count of '?' characters (placeholders_text_statement) is proved only for "
+              "current source.  Histories: session_requests_independent / session_call_is_query / session_rows_selected (the k-th "
+              "request of any history is the single request of the other theorems - trivial, the model is a pure function), "
+              "prepared_condition_tracks_its_lists / prepared_conditions_in_request / prepared_condition_text_is_current (a kept "
+              "condition object whose list was changed = the object made now from the current values; text and placeholders "
+              "follow the current contents).  That the IMPLEMENTATION has no state between requests (placeholder style, "
+              "statement text, order / scalars overrides, record type, connection, cached condition text or values) and does "
+              "not change its arguments is tested only (150 sessions per quick run; oracle signatures placeholder-count, "
+              "wrong-connection, argument-mutated, wrong-record).  Partial: the text-level count of '?' characters (placeholders_text_statement) is proved only for "
               "the literals (placeholders_text_partial) and tested on every case.  Tested only: that sqlite3 treats the "
               "emitted text like Model.v's token evaluator (rows compared on ~1000 untyped-table queries per quick run), typed "
               "columns (oracle with the engine's own atom truths), the '%s' style end-to-end, record contents, ORDER BY.")
